@@ -299,6 +299,10 @@ pub fn run(run: &Run) {
         matrix_suite(run, k, &near, &near, &[0, 1, 2, 3]);
         matrix_suite(run, k, &near[..4], &near[4..], &[1, 2]);
         gram_suite(run, k, &near[..6]);
+        // distinct points at relative separations 1e-5 .. 1e-8, far from the origin relative to the length scale
+        let apart = [750.3, 750.30148, 750.30075, 750.300001, -40.7, -40.699889, -40.6999, 1e3, 1e3 + 1e-3, 1e3 + 1e-4, 1e3 + 2e-5];
+        matrix_suite(run, k, &apart, &apart, &[0, 1, 2, 3]);
+        matrix_suite(run, k, &apart[..4], &apart[4..], &[1, 2]);
     });
     run.sample(|| "RQ{var=1,alpha=1,l=1}: k(0,2) must be (1+2)^-1 = 1/3 <= k(0,0) = 1; forward([-2,.5,3],[0,1]) is 3x2 and equals the scalar form entry by entry".to_string());
     // all ordered tuples for a subset of kernels
